@@ -159,6 +159,9 @@ func InnerKind(err error) string {
 	if err == ErrSentinel {
 		return "sentinel"
 	}
+	if _, ok := err.(interface{ Unwrap() []error }); ok {
+		return "joined"
+	}
 	return "other"
 }
 
